@@ -147,11 +147,52 @@ def reduce_tag_test(c):
     return None
 
 
+def _split_tuple_pat(pat):
+    """Top-level elements of a tuple pattern `( a , Some (x) , _ )`, or None if it is not a tuple pattern."""
+    pat = pat.strip()
+    if not (pat.startswith('(') and pat.endswith(')')):
+        return None
+    inner, depth, cur, out = pat[1:-1], 0, '', []
+    for ch in inner:
+        if ch in '([{':
+            depth += 1
+        elif ch in ')]}':
+            depth -= 1
+        if ch == ',' and depth == 0:
+            out.append(cur)
+            cur = ''
+        else:
+            cur += ch
+    if cur.strip():
+        out.append(cur)
+    return out
+
+
 def normalize_frames(frames):
     """`match opt { Some(x) => .., None => .. }` arms are the same tests as `if let Some(x) = opt` / its else branch:
     arm frames over exactly Some / exactly None become if-frames on `opt.is_some()`."""
     out = []
     for fr in frames:
+        # an arm of `match (a, b, c) { (true, Some(_), None) => .. }` is the conjunction of one test per element
+        sc_t = vt.unvar(fr.get('scrut')) if fr.get('k') == 'arm' else None
+        if isinstance(sc_t, dict) and sc_t.get('k') == 'tuple' and sc_t.get('items') and not fr.get('guard'):
+            elems = _split_tuple_pat(str(fr.get('pat', '')))
+            if elems is not None and len(elems) == len(sc_t['items']):
+                ok_all = True
+                new = []
+                for pe, item in zip(elems, sc_t['items']):
+                    pe = pe.strip()
+                    if pe not in ('true', 'false') and (pe == '_' or re.fullmatch(r'[a-z_][A-Za-z0-9_]*', pe)):
+                        continue
+                    if pe in ('true', 'false'):
+                        new.append({'k': 'if', 'c': item, 'neg': pe == 'false', 'line': fr.get('line'), 'from_arm': True})
+                    elif re.fullmatch(r'Some\s*\(.*\)', pe) or pe == 'None':
+                        new.append({'k': 'if', 'c': {'k': 'iflet', 'scrut': item, 'variants': ['Some'], 'pat': 'Some (_)'}, 'neg': pe == 'None', 'line': fr.get('line'), 'from_arm': True})
+                    else:
+                        ok_all = False
+                if ok_all:
+                    out.extend(new)
+                    continue
         if fr.get('k') == 'arm' and not fr.get('guard') and fr.get('scrut') is not None:
             vs = [str(x).split('::')[-1] for x in fr.get('variants', [])]
             if vs == ['Some'] or vs == ['None']:
